@@ -274,6 +274,7 @@ class Oracle:
         self.taken = []
         self.pending = []
         self.decisions = {}
+        self.order = []               # [(key, value)] in the order the decisions were taken (binary ones only)
         self.visits = {}
 
     def decide(self, key):
@@ -287,14 +288,39 @@ class Oracle:
             self.pending.append(self.taken + [False])
         self.taken.append(v)
         self.decisions[(key, n)] = v
+        self.order.append(((key, n), v))
         return v
+
+    def choose(self, n):
+        """n-way choice (which path of a callee summary); not part of the decision vector itself."""
+        i = len(self.taken)
+        if i < len(self.prefix):
+            v = self.prefix[i]
+        else:
+            v = 0
+            for alt in range(1, n):
+                self.pending.append(self.taken + [alt])
+        self.taken.append(v)
+        return v
+
+    def adopt(self, prefix_key, order):
+        """Take over the decisions of a callee summary path (keys are wrapped with the call site)."""
+        for k, v in order:
+            kk = (prefix_key, k)
+            self.decisions[kk] = v
+            self.order.append((kk, v))
 
 
 class Path:
-    def __init__(self, outcome, writes, decisions, tags_seen, fired, notes, opaque_errors=()):
+    def __init__(self, outcome, writes, decisions, tags_seen, fired, notes, opaque_errors=(), order=(), exc=None):
         self.outcome, self.writes, self.decisions = outcome, writes, decisions
         self.tags_seen, self.fired, self.notes = tags_seen, fired, notes
         self.opaque_errors = tuple(opaque_errors)
+        self.order = list(order)
+        self.exc = exc
+
+    def observable(self):
+        return (self.outcome, tuple(self.writes), tuple(sorted(set(self.opaque_errors))))
 
     def compatible(self, other):
         a, b = self.decisions, other.decisions
@@ -322,6 +348,7 @@ class Model:
     status_unknown = None            # Ext name of the UNKNOWN status code
     status_ok = None
     servicer_key = None              # key of the servicer class registered with the gRPC server
+    summaries = None                 # cache of RPC path summaries (set per analysis)
     enum_classes = ()                # Ext names of enum classes: two different members are unequal
     directable = frozenset()         # error tags decided by the abstract state
     unreachable = {}                 # error tags assumed never to hold: tag -> reason
@@ -331,7 +358,7 @@ class Model:
         """-> (class key to raise | None, is_write)."""
         return None, False
 
-    def classify(self, cls_key, qual, ordinal):
+    def classify(self, cls_key, qual, ordinal, interp=None):
         return 'other.%s@%s#%d' % (cls_key, qual, ordinal)
 
     def setup_globals(self, interp):
@@ -343,6 +370,10 @@ class Interp:
         self.model, self.h, self.state, self.mode, self.oracle = model, hier, frozenset(state), mode, oracle
         self.writes, self.tags_seen, self.fired, self.notes = [], set(), [], set()
         self.opaque_errors = []
+        self.ambient = {}              # family of an ambient datastore condition -> holds (True) / does not (False)
+        self.rpc_depth = 0
+        self.rpc_name = None
+        self.rpc_visits = {}
         self.depth = 0
         self.globals_cache = {}
         self.ctx_stack = []
@@ -583,6 +614,10 @@ class Interp:
     def e_Subscript(self, n, fr):
         self.eval(n.value, fr)
         self.eval(n.slice, fr)
+        if isinstance(n.slice, (ast.Constant, ast.UnaryOp)) and ast.unparse(n.value) in fr.falsy:
+            # indexing a container that the path condition says is empty
+            self.fire('IndexError: %s is empty on this path (%s)' % (ast.unparse(n.value), fr.qual))
+            self.raise_(self.new_exc('builtins.IndexError'))
         return UNKNOWN
 
     def e_Slice(self, n, fr):
@@ -657,6 +692,10 @@ class Interp:
         return UNKNOWN
 
     def e_ListComp(self, n, fr):
+        if len(n.generators) == 1:
+            it = self.eval(n.generators[0].iter, fr)
+            if isinstance(it, SeqV) and not it.items:
+                return SeqV([], 'list')
         return self._comp(n, fr, [n.elt])
 
     def e_SetComp(self, n, fr):
@@ -676,6 +715,8 @@ class Interp:
 
     # ------------------------------------------------------------------ calls
     def e_Call(self, n, fr):
+        if fr.falsy and isinstance(n.func, ast.Attribute):
+            fr.falsy.discard(ast.unparse(n.func.value))          # a method call may fill the container
         f = self.eval(n.func, fr)
         args, kwargs, star = [], {}, False
         for a in n.args:
@@ -697,6 +738,8 @@ class Interp:
             if not self.in_scope(f.mod):
                 self.note('call of %s.%s (outside the analysed scope) assumed to return normally' % (f.mod.dotted, f.qual))
                 return UNKNOWN
+            if self.is_rpc_call(f):
+                return self.rpc_via_summary(f.node.name, False)
             return self.invoke(f, args, kwargs, fr)
         if isinstance(f, ClsV):
             return self.construct(f.key, args, kwargs, fr)
@@ -786,9 +829,45 @@ class Interp:
             self._remote_servicer = self.construct(self.model.servicer_key, [], {}, fr)
         return self._remote_servicer
 
+    # -- the RPC boundary: a servicer method called from client code is analysed once per (method, state, contract)
+    #    and its reduced path summary is replayed at the call site
+    def is_rpc_call(self, f):
+        return (self.rpc_depth == 0 and isinstance(f.bound, InstV) and f.bound.cls == self.model.servicer_key
+                and isinstance(f.node, ast.FunctionDef) and any(a.arg == 'context' for a in f.node.args.args))
+
+    def rpc_via_summary(self, name, remote):
+        key = (name, self.state, remote)
+        sm = self.model.summaries.get(key)
+        if sm is None:
+            def entry(it):
+                it.rpc_depth = 1
+                it.rpc_name = name
+                fr = Frame(Hierarchy.classinfo(self.model.servicer_key).mod, None, None, '<rpc %s>' % name)
+                if remote:
+                    return it.remote_rpc(name, [UNKNOWN], {}, fr)
+                sv = it.construct(self.model.servicer_key, [], {}, fr)
+                f = it.getattr_v(sv, name, fr)
+                return it.invoke(f, [UNKNOWN], {}, fr)
+            sm = reduce_paths(enumerate_paths(self.model, self.h, entry, self.state, self.mode))
+            self.model.summaries[key] = sm
+        n = self.rpc_visits.get(name, 0) + 1
+        self.rpc_visits[name] = n
+        p = sm[self.oracle.choose(len(sm))]
+        self.oracle.adopt(('rpc', name, n), p.order)
+        self.writes.extend(p.writes)
+        self.fired.extend(p.fired)
+        self.tags_seen |= p.tags_seen
+        self.notes |= p.notes
+        self.opaque_errors.extend(p.opaque_errors)
+        if p.exc is not None:
+            self.raise_(InstV(p.exc.cls, p.exc.attrs))
+        return UNKNOWN
+
     def remote_rpc(self, name, args, kwargs, fr):
         """gRPC semantics (assumed, DESIGN 4.6): the handler runs with a real context; a status code set on
         the context surfaces as that code; an escaping exception with no code set surfaces as UNKNOWN."""
+        if self.rpc_depth == 0:
+            return self.rpc_via_summary(name, True)
         sv = self.remote_servicer(fr)
         f = self.getattr_v(sv, name, fr)
         if not isinstance(f, FuncV):
@@ -987,6 +1066,8 @@ class Interp:
     def bind_target(self, t, v, fr):
         if isinstance(t, ast.Name):
             fr.env[t.id] = v
+            if fr.falsy:
+                fr.falsy = {x for x in fr.falsy if x != t.id and not x.startswith(t.id + '.')}
         elif isinstance(t, ast.Attribute):
             b = self.eval(t.value, fr)
             if isinstance(b, InstV):
@@ -1090,7 +1171,7 @@ class Interp:
             cls = self.static_exc_class(last.value.args[0], assigns, fr)
         if cls is None:
             return None
-        return self.model.classify(cls, fr.qual, self.error_ordinal(last, cls, fr))
+        return self.model.classify(cls, fr.qual, self.error_ordinal(last, cls, fr), self)
 
     def error_ordinal(self, last, cls, fr):
         """1-based ordinal of this error block among the error blocks of the same class in the function."""
@@ -1153,7 +1234,46 @@ class Interp:
             return tags, False
         return [], False
 
+    def _effect_free(self, stmts, fr):
+        """Only logging calls: the branch cannot influence the exception flow."""
+        for st in stmts:
+            if not (isinstance(st, ast.Expr) and isinstance(st.value, ast.Call)
+                    and isinstance(st.value.func, ast.Attribute) and isinstance(st.value.func.value, ast.Name)
+                    and fr.mod.imports.get(st.value.func.value.id, '').endswith('logging')):
+                return False
+        return True
+
+    def _note_truth(self, test, t, fr):
+        e, v = test, t
+        while isinstance(e, ast.UnaryOp) and isinstance(e.op, ast.Not):
+            e, v = e.operand, not v
+        if isinstance(e, (ast.Name, ast.Attribute)):
+            src = ast.unparse(e)
+            if v:
+                fr.falsy.discard(src)
+            else:
+                fr.falsy.add(src)
+
+    def _named_errors_in(self, stmts, fr):
+        """Directable error tags of the error blocks nested (syntactically) in a statement list."""
+        ck = ('named', id(stmts[0]) if stmts else 0)
+        if ck in self._nodekeys:
+            return self._nodekeys[ck]
+        out = set()
+        for st in stmts:
+            for n in ast.walk(st):
+                if isinstance(n, ast.If):
+                    for bl in (n.body, n.orelse):
+                        t = self.error_block_tag(bl, fr) if bl else None
+                        if t is not None and t in self.model.directable:
+                            out.add(t)
+        self._nodekeys[ck] = out
+        return out
+
     def s_If(self, s, fr):
+        if not s.orelse and self._effect_free(s.body, fr):
+            self.eval(s.test, fr)
+            return
         t = self.truth(self.eval(s.test, fr))
         if t is None:
             tb = self.error_block_tag(s.body, fr)
@@ -1175,7 +1295,16 @@ class Interp:
                     if not t:
                         self.opaque_errors.extend(x for x, h in zip(tags, hit) if h is None)
         if t is None:
+            # a named error condition of the state that is checked inside one arm only: the condition holding
+            # means that the execution gets to that check
+            a, b = self._named_errors_in(s.body, fr) & self.state, self._named_errors_in(s.orelse, fr) & self.state
+            if a and not b:
+                t = True
+            elif b and not a:
+                t = False
+        if t is None:
             t = self.oracle.decide(self.nodekey(s, fr))
+        self._note_truth(s.test, t, fr)
         self.exec_block(s.body if t else s.orelse, fr)
 
     def s_While(self, s, fr):
@@ -1259,6 +1388,7 @@ class Frame:
     def __init__(self, mod, cls, fn, qual, closure=None):
         self.mod, self.cls, self.fn, self.qual, self.closure = mod, cls, fn, qual, closure
         self.env = {}
+        self.falsy = set()            # source text of expressions known to be falsy on this path
 
 
 def _is_generator(fn):
@@ -1303,16 +1433,98 @@ def enumerate_paths(model, hier, entry, state, mode):
         o = Oracle(prefix)
         it = Interp(model, hier, state, mode, o)
         model.setup_globals(it)
+        exc = None
         try:
             v = entry(it)
             outcome = describe_outcome(it, 'return', v)
         except RaiseSignal as r:
             outcome = describe_outcome(it, 'raise', r.exc)
+            exc = r.exc
         except _Return as r:
             outcome = describe_outcome(it, 'return', r.value)
         out.append(Path(outcome, tuple(it.writes), dict(o.decisions), set(it.tags_seen), list(it.fired), set(it.notes),
-                        it.opaque_errors))
+                        it.opaque_errors, o.order, exc))
         work.extend(o.pending)
         if len(out) > model.max_paths:
             raise PathLimit('more than %d paths' % model.max_paths)
+    return out
+
+
+def reduce_paths(paths):
+    """Drop decisions that do not influence what a caller can observe (outcome, writes, unnamed error conditions).
+
+    The paths of one enumeration form an ordered binary decision tree (the decision taken at position i is a
+    function of the decisions before it).  A node whose two subtrees are identical is replaced by its subtree:
+    the decision is irrelevant given the prefix.  The mapping "full decision vector -> observable" is unchanged.
+    """
+    if len(paths) <= 1:
+        for p in paths:
+            p.order, p.decisions = [], {}
+        return paths
+
+    def build(ps, depth):
+        # all ps agree on the first `depth` decisions
+        if len(ps) == 1 and len(ps[0].order) <= depth:
+            return ('leaf', ps[0])
+        keys = {p.order[depth][0] if len(p.order) > depth else None for p in ps}
+        if len(keys) != 1 or None in keys:
+            return ('opaque', ps)          # not a proper tree (should not happen): keep as is
+        k = keys.pop()
+        t = [p for p in ps if p.order[depth][1]]
+        f = [p for p in ps if not p.order[depth][1]]
+        if not t or not f:
+            return build(t or f, depth + 1) if False else ('node1', k, bool(t), build(t or f, depth + 1))
+        return ('node', k, build(t, depth + 1), build(f, depth + 1))
+
+    def sig(n):
+        if n[0] == 'leaf':
+            return ('L', n[1].observable())
+        if n[0] == 'opaque':
+            return ('O', tuple(sorted((tuple(p.order), p.observable()) for p in n[1])))
+        if n[0] == 'node1':
+            return ('1', n[1], n[2], sig(n[3]))
+        return ('N', n[1], sig(n[2]), sig(n[3]))
+
+    def red(n):
+        if n[0] in ('leaf', 'opaque'):
+            return n
+        if n[0] == 'node1':
+            return ('node1', n[1], n[2], red(n[3]))
+        a, b = red(n[2]), red(n[3])
+        if sig(a) == sig(b):
+            merge_info(a, b)
+            return a
+        return ('node', n[1], a, b)
+
+    def leaves(n):
+        if n[0] == 'leaf':
+            return [n[1]]
+        if n[0] == 'opaque':
+            return list(n[1])
+        if n[0] == 'node1':
+            return leaves(n[3])
+        return leaves(n[2]) + leaves(n[3])
+
+    def merge_info(a, b):
+        la, lb = leaves(a), leaves(b)
+        for x, y in zip(la, lb):
+            x.tags_seen |= y.tags_seen
+            x.notes |= y.notes
+
+    out = []
+
+    def emit(n, order):
+        if n[0] == 'leaf':
+            p = n[1]
+            p.order = list(order)
+            p.decisions = dict(order)
+            out.append(p)
+        elif n[0] == 'opaque':
+            out.extend(n[1])
+        elif n[0] == 'node1':
+            emit(n[3], order + [(n[1], n[2])])
+        else:
+            emit(n[2], order + [(n[1], True)])
+            emit(n[3], order + [(n[1], False)])
+    emit(red(build(list(paths), 0)), [])
     return out
